@@ -56,6 +56,8 @@ RemoveFirst(q, x) ==
     ELSE q
 AppendNew(q, x) == IF x \in SeqToSet(q) THEN q ELSE Append(q, x)
 
+BlotterSize(s, mid) == Cardinality({x \in DOMAIN s.ord : s.ord[x].mid = mid /\ s.ord[x].inbl})
+
 EmptyRcM(mid) == [trades |-> <<>>, live |-> <<>>, lastp |-> -1, lastr |-> -1, mid |-> mid]
 EmptyRc == EmptyRcM("")
 
@@ -156,7 +158,7 @@ NewReplacement(s, o, r, price, size, created) ==
                 !.size = size, !.m = 0, !.can = 0, !.lap = 0, !.void = 0, !.avg = 0,
                 !.frags = <<>>, !.piq = 0, !.bspd = FALSE, !.inbl = FALSE, !.live = FALSE,
                 !.created = created, !.placed = -1, !.supd = s.clock, !.red = 0, !.newp = 0,
-                !.nlog = 0, !.mver = -1, !.tif = "NONE", !.minfill = -1]
+                !.nlog = 0, !.mver = -1, !.tif = "NONE", !.minfill = -1, !.bseq = -1]
 
 \* execute_replace for one (order, instruction) pair.  rlab = label of the replacement.
 ExecReplaceOne(s, o, rlab, newprice, created, n) ==
@@ -178,7 +180,8 @@ ExecReplaceOne(s, o, rlab, newprice, created, n) ==
                                   !.trd[t].orders = Append(@, rlab)]
                     \* market.place_order(replacement, execute=False): PENDING, blotter, no rc.place
                     s4 == SetStatus(s3, rlab, "PENDING")
-                    s5 == [s4 EXCEPT !.ord[rlab].inbl = TRUE, !.ord[rlab].live = TRUE]
+                    s5 == [s4 EXCEPT !.ord[rlab].inbl = TRUE, !.ord[rlab].live = TRUE,
+                                     !.ord[rlab].bseq = BlotterSize(s4, s4.ord[rlab].mid)]
                 IN ExitTrade(Executable(s5, rlab), t)
            ELSE \* placement of the replacement failed: the original stays complete and the
                 \* never-placed replacement does not stay in the trade (see known finding D4)
@@ -276,7 +279,7 @@ SweepOne(s, o) ==
               THEN [ExecutionComplete(s, o) EXCEPT !.ord[o].live = FALSE]
               ELSE s
          ELSE \* LIMIT_ON_CLOSE / MARKET_ON_CLOSE: SimulatedOrder.status
-              IF r.bspd THEN [ExecutionComplete(s, o) EXCEPT !.ord[o].live = FALSE] ELSE s
+              IF r.bspd \/ r.void > 0 THEN [ExecutionComplete(s, o) EXCEPT !.ord[o].live = FALSE] ELSE s
 
 RECURSIVE SweepSet(_, _)
 SweepSet(s, S) ==
@@ -310,7 +313,8 @@ NewOrderRec(s, q) ==
      m |-> 0, can |-> 0, lap |-> 0, void |-> 0, avg |-> 0, frags |-> <<>>, piq |-> 0,
      bspd |-> FALSE, inbl |-> FALSE, live |-> FALSE, trade |-> q.t, sel |-> q.sel,
      mid |-> q.mid, strat |-> q.strat, rck |-> q.rck, created |-> s.clock, placed |-> -1,
-     supd |-> s.clock, red |-> 0, newp |-> 0, nlog |-> 0, mver |-> -1]
+     supd |-> s.clock, red |-> 0, newp |-> 0, nlog |-> 0, mver |-> -1,
+     selk |-> q.selk, client |-> q.client, bseq |-> -1]
 
 EnsureOrder(s, q) ==
     LET s1 == IF Has(s.trd, q.t) THEN s
@@ -360,7 +364,8 @@ ReqOne(s, q) ==
                    ELSE IF q.r = "ERROR" THEN s1
                    ELSE \* ACCEPT: order.place, blotter[...] = order, runner_context.place
                      LET a1 == SetStatus(s1, q.o, "PENDING")
-                         a2 == [a1 EXCEPT !.ord[q.o].inbl = TRUE, !.ord[q.o].live = TRUE]
+                         a2 == [a1 EXCEPT !.ord[q.o].inbl = TRUE, !.ord[q.o].live = TRUE,
+                                          !.ord[q.o].bseq = BlotterSize(a1, q.mid)]
                          k == q.rck
                          rc == IF Has(a2.rc, k) THEN a2.rc[k] ELSE EmptyRcM(q.mid)
                      IN [a2 EXCEPT !.rc = Put(a2.rc, k,
